@@ -649,7 +649,8 @@ def plan(quick):
     fams = []
     for n in range(0, 4):
         fams.append(("loops", n, "asc", (0, 1)))
-    fams.append(("loops", 4, "asc", (0, 1)))
+    # 4 nodes: cycles_count = 1 multiplies the cost on dense graphs, it is part of the thorough tier
+    fams.append(("loops", 4, "asc", (0,) if quick else (0, 1)))
     fams.append(("multi", 1, "asc", (0, 1)))
     fams.append(("multi", 2, "asc", (0, 1)))
     fams.append(("multi", 3, "asc", (0,)))
